@@ -78,4 +78,13 @@ theorem take_getD (g : Graph) (d : DenCfg) (n p : Nat) (hp : p < n) :
     ((denAll g d).take n).getD p ⟨.error .internal, .error .internal⟩ = den g d p := by
   simp only [den, List.getD_eq_getElem?_getD, List.getElem?_take, hp, if_true]
 
+theorem den_absent (g : Graph) (d : DenCfg) (n : Nat) (h : g.nodes[n]? = none) :
+    den g d n = ⟨.error .internal, .error .internal⟩ := by
+  have hlen : (denAll g d).length = g.nodes.length := by
+    simp [denAll, denFrom_length]
+  have : (denAll g d)[n]? = none := by
+    rw [List.getElem?_eq_none_iff] at h ⊢
+    omega
+  simp only [den, List.getD_eq_getElem?_getD, this, Option.getD_none]
+
 end CM
